@@ -26,13 +26,22 @@ PIPELINES = [
     ([{"total": "7", "share": "2.5", "marks": ["false"], "kid": {"m": "3"}}], "dataclasses", "flat", 10, {"post_init_converters": True}),
     # keys that need transliteration (any per-thread state of the label code is exercised from worker threads)
     ([{"gr\u00f6\u00dfe": 1, "\u0438\u043c\u044f": "x", "na\u00efve": {"caf\u00e9": 2}}], "pydantic", "flat", 10),
+    # date / time / datetime strings with the datetime classes registered (explicit registry): detection calls into dateutil, and
+    # anything that only works in the main thread (signals, main-thread-only state) shows as a different type in a worker
+    ([{"day": "2018-12-31", "at": "12:58:12", "stamp": "2018-12-31T12:58:12Z", "n": "12", "items": [{"d": "2019-01-02"}]},
+      {"day": "2019-02-01", "at": "01:02:03", "stamp": "2019-02-01T01:02:03Z", "n": "13", "items": []}], "pydantic", "flat", 10, {}, "datetime"),
+    ([{"born": "1999-05-06", "alarm": "06:30:00", "seen": "2020-02-29T23:59:59"}], "dataclasses", "flat", 10, {"post_init_converters": True}, "datetime"),
 ]
 
 
 def run_one(i):
     from vflib import pipeline
     samples, fw, layout, ml, *extra = PIPELINES[i]
-    gen, reg, _ = pipeline.infer({"Root": copy.deepcopy(samples)})
+    infer_kw = {}
+    if len(extra) > 1:
+        from vflib.props import c01
+        infer_kw["str_registry"] = c01.str_registry(extra[1])
+    gen, reg, _ = pipeline.infer({"Root": copy.deepcopy(samples)}, **infer_kw)
     kw = {"meta": True} if fw in ("attrs", "dataclasses") else {}
     kw.update(extra[0] if extra else {})
     return pipeline.emit(reg, fw, layout, max_literals=ml, **kw)
@@ -180,11 +189,11 @@ def scen_schedule(ch, params, out):
 
 def parts(tier):
     if tier == "quick":
-        return [CH("one_worker", "vflib.props.c15:scen_schedule", {"threads": 1, "pipeline_sets": [[0], [1], [2], [4], [6]], "preemptions": 0}, shards=1, timeout=120, path_timeout=60),
+        return [CH("one_worker", "vflib.props.c15:scen_schedule", {"threads": 1, "pipeline_sets": [[0], [1], [2], [4], [6], [7], [8]], "preemptions": 0}, shards=1, timeout=120, path_timeout=60),
                 CH("two_workers", "vflib.props.c15:scen_schedule", {"threads": 2, "pipeline_sets": [[0, 3]], "preemptions": 2}, shards=2, timeout=170, path_timeout=90),
                 CH("two_workers_converters", "vflib.props.c15:scen_schedule", {"threads": 2, "pipeline_sets": [[4, 5]], "preemptions": 2}, shards=2, timeout=170, path_timeout=90)]
-    return [CH("one_worker", "vflib.props.c15:scen_schedule", {"threads": 1, "pipeline_sets": [[0], [1], [2]], "preemptions": 0}, shards=1, timeout=120, path_timeout=60),
-            CH("two_workers", "vflib.props.c15:scen_schedule", {"threads": 2, "pipeline_sets": [[0, 1], [1, 2], [0, 3], [3, 2], [4, 5], [6, 0]], "preemptions": 2}, shards=2, timeout=250, path_timeout=90),
+    return [CH("one_worker", "vflib.props.c15:scen_schedule", {"threads": 1, "pipeline_sets": [[0], [1], [2], [3], [4], [5], [6], [7], [8]], "preemptions": 0}, shards=1, timeout=120, path_timeout=60),
+            CH("two_workers", "vflib.props.c15:scen_schedule", {"threads": 2, "pipeline_sets": [[0, 1], [1, 2], [0, 3], [3, 2], [4, 5], [6, 0], [7, 8]], "preemptions": 2}, shards=2, timeout=250, path_timeout=90),
             CH("three_workers", "vflib.props.c15:scen_schedule", {"threads": 3, "pipeline_sets": [[0, 1, 2]], "preemptions": 2}, shards=3, timeout=250, path_timeout=90),
             CH("two_workers_context_only_all_interleavings", "vflib.props.c15:scen_schedule",
                {"threads": 2, "pipeline_sets": [[0, 1]], "preemptions": 40, "extra_points": False}, shards=2, timeout=250, path_timeout=90)]
